@@ -61,6 +61,8 @@ class Group:
     invariant_is_property: bool = False   # loop-invariant step failures count as property failures
     malloc_may_fail: bool = False
     extra_instrument: List[str] = field(default_factory=list)
+    oldstyle: bool = False                # goto-instrument's static (non-dfcc) contract instrumentation: used where dfcc's
+                                          # dynamic write-set checks make symbolic execution intractable (pointer locals havoced by a loop contract)
     no_dfcc: bool = False                 # plain harness (spec-level lemma), no contract instrumentation
     replay: Optional[str] = None          # name of native replay recipe
     need_canary: bool = True              # harness must end with VP_CANARY() and it must be reachable
@@ -91,10 +93,15 @@ class Result:
 AUX_PATTERNS = [
     r"^Check invariant before entry for loop",
     r"^Check invariant after step for loop",
+    r"^Check loop invariant before entry",          # static (non-dfcc) instrumentation
+    r"^Check that loop invariant is preserved",
+    r"^Check that loop instrumentation was not truncated",
     r"^Check step was unwound for loop",
     r"^Check decreases clause",
     r"^Check variant decreases",
     r"^Check that .* is assignable",
+    r"^Check that the assigns clause of .* is included in the caller's assigns clause",
+    r"^Check that the frees clause of .* is included in the caller's frees clause",
     r"^Check that .* is valid",            # assigns-clause target validity
     r"^Check that .* is freeable",
     r"^unwinding assertion",
@@ -106,7 +113,7 @@ AUX_PATTERNS = [
     r"^Check that ensures do not allocate or deallocate",
 ]
 AUX_RE = [re.compile(p) for p in AUX_PATTERNS]
-INV_STEP_RE = re.compile(r"^Check invariant after step for loop")
+INV_STEP_RE = re.compile(r"^Check invariant after step for loop|^Check that loop invariant is preserved")
 TAG_RE = re.compile(r"^(C\d\d(?:/C\d\d)*):")
 
 
@@ -244,13 +251,13 @@ def run_group(g: Group, prop: str, keep_trace=True) -> Result:
             cur = b
         if not g.no_dfcc:
             b = os.path.join(wd, "b.gb")
-            cmd = ["goto-instrument", "--dfcc", g.entry]
+            cmd = ["goto-instrument"] + ([] if g.oldstyle else ["--dfcc", g.entry])
             if g.enforce:
                 cmd += ["--enforce-contract", g.enforce]
             for r in g.replace:
                 cmd += ["--replace-call-with-contract", r]
             if g.loops is not None:
-                lf = gen_loop_contracts(g, cur, wd, list(cmd))
+                lf = gen_loop_contracts(g, cur, wd, ["goto-instrument", "--dfcc", g.entry] + cmd[1 if g.oldstyle else 3:])
                 cmd += ["--loop-contracts-file", lf, "--apply-loop-contracts"]
             cmd += g.extra_instrument
             cmd += [cur, b]
@@ -258,7 +265,7 @@ def run_group(g: Group, prop: str, keep_trace=True) -> Result:
             if rc != 0:
                 raise Infra("goto-instrument --dfcc failed: " + (err or out)[-3000:])
             cur = b
-        cmd = ["cbmc", cur, "--json-ui", "--drop-unused-functions", "--unwind", str(g.unwind), "--unwinding-assertions"] + g.checks
+        cmd = ["cbmc", cur] + (["--function", g.entry] if g.oldstyle else []) + ["--json-ui", "--drop-unused-functions", "--unwind", str(g.unwind), "--unwinding-assertions"] + g.checks
         uws = list(g.unwindset)
         if g.unwind_fn:
             rc3, out3, err3, _ = run(["goto-instrument", "--show-loops", cur], 120)
